@@ -212,6 +212,7 @@ def run(ck, w):
         ck.fail(o, vst.name, "range bookkeeping removed", "no start+len per block recorded")
     common.cli_option(ck, w, "C09.4", "ValidateOptions", "skip_block_hashes", ("param", "quick"))
     _maps_insert(ck, w)
+    common.hunk_listing_complete(ck, w, "C09.3j")
 
 
 def _maps_insert(ck, w):
